@@ -92,6 +92,20 @@ func c08PredialCase(c *Ctx) *Result {
 		res.Detail = fmt.Sprintf("the connection was dialled %d s before its first write; real client and real server on one clock: the first write (err=%v) did not reach the server application", waitS, werr)
 		return res
 	}
+	// and the way back: the server answers with the key of its present, which
+	// the client must be able to read whatever the instant of its dial was
+	if served && canSteerClock() {
+		_, swerr := sc.Write([]byte("world"))
+		b := make([]byte, 5)
+		cc.SetReadDeadline(time.Now().Add(10 * time.Second))
+		_, rerr := io.ReadFull(cc, b)
+		res.Obs["predial_round_trips"]++
+		if swerr != nil || rerr != nil || string(b) != "world" {
+			res.Verdict, res.Sig = Violated, "C08|predial|reply-unreadable-by-client"
+			res.Detail = fmt.Sprintf("the connection was dialled %d s before its first write; the request reached the server application, the server's answer (write err=%v) did not reach the client application (read err=%v)", waitS, swerr, rerr)
+			return res
+		}
+	}
 	res.Verdict = Held
 	return res
 }
